@@ -84,7 +84,16 @@ class SqlFluffLineageAnalyzer(LineageAnalyzer):
                     )
 
     def _list_specific_statement_segment(self, sql: str):
-        parsed = Linter(config=self._sqlfluff_config).parse_string(sql)
+        try:
+            parsed = Linter(config=self._sqlfluff_config).parse_string(sql)
+            tree = parsed.tree
+        except Exception as e:
+            # the parser (templater, lexer, grammar) gave up with an internal error: the text is unparsable
+            raise InvalidSyntaxException(
+                f"This SQL statement is unparsable, please check potential syntax error for SQL:\n"
+                f"{sql}\n"
+                f"{type(e).__name__}: {e}"
+            ) from e
         violations = [
             str(e)
             for e in parsed.violations
@@ -98,7 +107,7 @@ class SqlFluffLineageAnalyzer(LineageAnalyzer):
                 f"{violation_msg}"
             )
         segments = []
-        for top_segment in getattr(parsed.tree, "segments", []):
+        for top_segment in getattr(tree, "segments", []):
             if top_segment.type == "statement":
                 segments.append(top_segment.segments[0])
             elif top_segment.type == "batch":
